@@ -135,6 +135,9 @@ class RecPacketizer(Packetizer):
         self.log = []
         self.log_cv = threading.Condition()
         self.sent_log = []  # (seqno_out, ptype, payload incl. type byte) for every message this side sent
+        # this side has written a KEXINIT and not yet the NEWKEYS that ends the exchange (read and written under the
+        # write lock only: a fact of what this side put on the wire, independent of the transport's own bookkeeping)
+        self.kex_out = False
 
     def send_message(self, data):
         with self._Packetizer__write_lock:
@@ -142,7 +145,29 @@ class RecPacketizer(Packetizer):
             raw = data.asbytes()
             Packetizer.send_message(self, data)
             self.sent_log.append((seq, raw[0] if raw else None, raw))
+            if raw and raw[0] == 20:
+                self.kex_out = True
+            elif raw and raw[0] == 21:
+                self.kex_out = False
             return seq
+
+    def send_message_outside_kex(self, data, timeout):
+        """Write `data` unless this side is between its own KEXINIT and its own NEWKEYS: the test and the write are
+        one step under the write lock (every message, the transport thread's KEXINIT included, goes through
+        send_message above), so the message lands either before the KEXINIT or after the NEWKEYS on the wire.
+        Waits up to `timeout` s for the exchange to end; raises NotSent otherwise."""
+        end = time.time() + timeout
+        while True:
+            with self._Packetizer__write_lock:
+                if not self.kex_out:
+                    return self.send_message(data)
+            if time.time() >= end:
+                raise NotSent("own exchange (KEXINIT written, NEWKEYS not yet) still open after %.0f s" % timeout)
+            time.sleep(0.001)
+
+
+class NotSent(Exception):
+    """Puppet.send_conn: the puppet's own key exchange did not end in time, nothing was written"""
 
     def read_message(self):
         ptype, m = Packetizer.read_message(self)
@@ -187,6 +212,15 @@ class Puppet(VTransport):
         m = Message()
         m.add_bytes(payload)
         return self.packetizer.send_message(m)
+
+    def send_conn(self, payload, timeout=12.0):
+        """Emit one connection-layer message the way a conforming peer does: never between this side's own KEXINIT
+        and its own NEWKEYS (RFC 4253 7.1). A harness thread that writes while the puppet's transport thread runs an
+        exchange (answering the tested side's KEXINIT, say) waits for the puppet's NEWKEYS; what was written before
+        the puppet's KEXINIT is ordinary crossing traffic. Returns the outbound sequence number; raises NotSent."""
+        m = Message()
+        m.add_bytes(payload)
+        return self.packetizer.send_message_outside_kex(m, timeout)
 
     def wait_log(self, pred, timeout=5.0):
         """Wait until pred(log) is truthy; returns its value (or the falsy last value)."""
